@@ -724,3 +724,116 @@ def vc_create_start_nodes(prog, use_edges=True, family='base', expansion=False):
     rep = verify_function(prog, fv, setup, goals, models=models, hooks=hooks, contracts=contracts, loops=loops, end_goals=end_goals,
                           name=f"BaseMatcher._create_start_nodes[{'edges' if use_edges else 'nodes'},{family},{'expansion' if expansion else 'fresh'}]")
     return fv, rep
+
+
+# =============================================================================================== _build_node_path: choice of the final entry
+def vc_build_node_path_choice(prog, last_is_e=False):
+    """The loop that chooses the final lattice entry, over a column of ARBITRARY size (array model, entries listed layer by
+    layer): inductive invariant 'best live entry of the deepest layer that has a live entry so far' (plain arg-max of the
+    log-probability when last_is_e); stopped entries are never chosen; among equals the first listed one wins (C01, C10, C19)."""
+    from contracts import prune as P
+    fv = prog.func(K.BASE, 'BaseMatcher._build_node_path')
+    st = {}
+    start_idx = I('start_idx')
+    IntS, RealS, BoolS = z3.IntSort(), z3.RealSort(), z3.BoolSort()
+    kq, jq = z3.Ints('k!b j!b')
+
+    def setup(ctx, it):
+        st.clear()
+        col = P.fresh_arrlist(ctx, 'col')
+        col.fields['obs_ne'] = z3.Array(f"col_ne!{ctx.n}", IntS, IntS)
+        ctx.assume(col.n >= 0)
+        # values_all() lists the layers in order: non-emitting depth is non-decreasing along the list, and >= 0
+        ne = col.fields['obs_ne']
+        ctx.assume(z3.ForAll([kq, jq], z3.Implies(z3.And(0 <= kq, kq <= jq, jq < col.n), z3.And(z3.Select(ne, kq) <= z3.Select(ne, jq), z3.Select(ne, kq) >= 0))))
+        matcher = K.mk_matcher('BaseMatcher')
+        matcher.f['lattice'] = Obj('Lattice')
+        st.update(col=col, matcher=matcher)
+        return [matcher, start_idx], {'unique': False, 'last_is_e': last_is_e}
+
+    def h_index_lattice(it, o, i):
+        st['col_index'] = i
+        return Obj('Column', idx=i)
+
+    def m_values_all(it, colobj):
+        return st['col']
+
+    def c_build_matching_path(it, fv_, args, kw):
+        st['chosen'] = args[1]
+        raise __import__('pyvc.interp', fromlist=['EndPath']).EndPath('final entry chosen')
+    hk, mods = P.hooks(prog, st)
+    hk = dict(hk)
+    hk[('index', 'Lattice')] = h_index_lattice
+    hk[('indexed', 'ArrList')] = lambda it, a: (a.n, lambda i: P.ElemRef(a, i))
+
+    def h_getattr(it, ref, attr):
+        if attr in ref.arr.fields:
+            return z3.Select(ref.arr.fields[attr], ref.idx)
+        raise Unsupported(f"entry attribute {attr}")
+    hk[('getattr', 'ElemRef')] = h_getattr
+    models = dict(K.base_models())
+    models[('meth', 'Column', 'values_all')] = Model('LatticeColumn.values_all', m_values_all)
+    contracts = {'BaseMatcher._build_matching_path': c_build_matching_path}
+    col_ = lambda: st['col']
+    lp = lambda i: z3.Select(col_().fields['logprob'], i)
+    stp = lambda i: z3.Select(col_().fields['stop'], i)
+    ne = lambda i: z3.Select(col_().fields['obs_ne'], i)
+
+    def better_or_equal(jstar, j):
+        """entry jstar is at least as good as live entry j under the documented preference"""
+        if last_is_e:
+            return lp(j) <= lp(jstar)
+        return z3.Or(ne(j) < ne(jstar), z3.And(ne(j) == ne(jstar), lp(j) <= lp(jstar)))
+
+    def inv(it, env):
+        k = env['$idx']
+        nm = env['node_max']
+        if nm is None:
+            return [('no-live-entry-seen-so-far', z3.ForAll([jq], z3.Implies(z3.And(0 <= jq, jq < k), stp(jq))))]
+        if not isinstance(nm, P.ElemRef):
+            return [('node_max-is-an-entry-of-the-column', z3.BoolVal(False))]
+        js = nm.idx
+        out = [('chosen-is-a-live-entry-seen-so-far', z3.And(0 <= js, js < k, z3.Not(stp(js)))),
+               ('chosen-is-best-so-far', z3.ForAll([jq], z3.Implies(z3.And(0 <= jq, jq < k, z3.Not(stp(jq))), better_or_equal(js, jq)))),
+               ('first-of-equals-so-far', z3.ForAll([jq], z3.Implies(z3.And(0 <= jq, jq < js, z3.Not(stp(jq))), z3.Not(better_or_equal(jq, js)))))]
+        if not last_is_e:
+            out.append(('depth-tracks-the-chosen-entry', env['node_max_ne'] == ne(js)))
+        return out
+
+    def havoc(it, env, pre):
+        # node_max: None or an arbitrary entry (decided by a choice); node_max_ne follows
+        if it.ctx.choice(2, 'node_max-none') == 0:
+            env['node_max'] = None
+            if 'node_max_ne' in env and not last_is_e:
+                env['node_max_ne'] = 0
+        else:
+            env['node_max'] = P.ElemRef(col_(), it.ctx.fresh('jstar', 'I'))
+            if not last_is_e:
+                env['node_max_ne'] = it.ctx.fresh('nm_ne', 'I')
+    import ast
+    loops_ast = sorted([x for x in ast.walk(fv.node) if isinstance(x, (ast.For, ast.While))], key=lambda x: (x.lineno, x.col_offset))
+    which = [i for i, x in enumerate(loops_ast) if isinstance(x, ast.For) and 'values_all' in ast.unparse(x.iter)]
+    loops = {}
+    for i in which:
+        loops[(fv.qual, i)] = {'inv': inv, 'havoc': havoc}
+
+    def end_goals(ctx, why):
+        if 'final entry chosen' not in str(why):
+            return []
+        ch = st.get('chosen')
+        g = [('choose:column-is-lattice[start_idx]', b2z(eq(st.get('col_index'), start_idx)))]
+        if not isinstance(ch, P.ElemRef):
+            return g + [('choose:an-entry-of-the-column-is-chosen', z3.BoolVal(False))]
+        n = col_().n
+        js = ch.idx
+        g += [('choose:chosen-entry-is-live', z3.And(0 <= js, js < n, z3.Not(stp(js)))),
+              ('choose:no-live-entry-is-preferable', z3.ForAll([jq], z3.Implies(z3.And(0 <= jq, jq < n, z3.Not(stp(jq))), better_or_equal(js, jq)))),
+              ('choose:first-listed-among-equals', z3.ForAll([jq], z3.Implies(z3.And(0 <= jq, jq < js, z3.Not(stp(jq))), z3.Not(better_or_equal(jq, js)))))]
+        return g
+
+    def goals(ctx, res):
+        # returned without choosing: only when the column has no live entry
+        return [('choose:none-only-if-no-live-entry', z3.And(b2z(res is None), z3.ForAll([jq], z3.Implies(z3.And(0 <= jq, jq < col_().n), stp(jq)))))]
+    rep = verify_function(prog, fv, setup, goals, models=models, hooks=hk, contracts=contracts, loops=loops, end_goals=end_goals,
+                          name=f"BaseMatcher._build_node_path(choice of the final entry)[last_is_e={last_is_e}]")
+    return fv, rep
